@@ -234,6 +234,8 @@ type listWorld struct {
 	fails   int64
 	probes  map[string]int64
 	own     string
+	opsDone chan int      // C01: every thread reports the end of its program here ...
+	drained chan struct{} // ... and waits for the drain before it gives its buffers back
 }
 
 func (w *listWorld) classOf(off uint32) int {
@@ -289,6 +291,48 @@ func (w *listWorld) acquired(tid int, s *bufferSlice, via string) *heldBuf {
 	w.held[off] = h
 	w.snapshot(h)
 	return h
+}
+
+// drain pops every size class until it reports exhaustion and checks each buffer like any other allocation.
+func (w *listWorld) drain(bm *bufferManager) {
+	var got []*heldBuf
+	for c, l := range bm.lists {
+		for n := 0; n <= int(*l.cap); n++ {
+			var s *bufferSlice
+			var err error
+			w.inOp++
+			crash := func() (p interface{}) {
+				defer func() { p = recover() }()
+				s, err = l.pop()
+				return nil
+			}()
+			if crash != nil {
+				w.inOp--
+				w.fail("C01.geometry", c, "drain: pop on class %d panicked (%v): the free chain leads outside the slots of the class", c, crash)
+				return
+			}
+			if err != nil {
+				w.inOp--
+				break
+			}
+			h := w.acquired(1000, s, "drain pop")
+			w.inOp--
+			if h == nil {
+				return
+			}
+			got = append(got, h)
+			w.probes["drain_pop"]++
+		}
+	}
+	for _, h := range got {
+		if !w.verify(h, "after drain") {
+			return
+		}
+		delete(w.held, h.off)
+		w.inOp++
+		bm.recycleBuffer(h.slice)
+		w.inOp--
+	}
 }
 
 func (w *listWorld) region(h *heldBuf) []byte {
@@ -463,6 +507,10 @@ func (shmlistScenario) Run(s *simrt.Sim, plan interface{}, opts map[string]strin
 			w.headKey = append(w.headKey, simrt.Norm(unsafe.Pointer(l.head)))
 		}
 		fin := make(chan int, len(p.Threads))
+		if own == "" || own == "C01" {
+			w.opsDone = make(chan int, len(p.Threads))
+			w.drained = make(chan struct{})
+		}
 		for ti := range p.Threads {
 			ti := ti
 			th := p.Threads[ti]
@@ -470,6 +518,17 @@ func (shmlistScenario) Run(s *simrt.Sim, plan interface{}, opts map[string]strin
 				w.thread(ti, th)
 				simrt.Send(fin, ti)
 			})
+		}
+		if w.opsDone != nil {
+			// C01 witness extension: with every thread still holding what it holds, take everything the free lists
+			// offer. A held buffer that an earlier race linked into a free chain is now handed out a second time.
+			for range p.Threads {
+				simrt.Recv(w.opsDone)
+			}
+			if !simrt.Failed() {
+				w.drain(bmA)
+			}
+			simrt.Close(w.drained)
 		}
 		for range p.Threads {
 			simrt.Recv(fin)
@@ -672,6 +731,10 @@ func (w *listWorld) thread(tid int, th listThread) {
 				}
 			}
 		}
+	}
+	if w.opsDone != nil {
+		simrt.Send(w.opsDone, tid)
+		simrt.Recv(w.drained)
 	}
 	// give everything back
 	for len(mine) > 0 {
